@@ -119,6 +119,7 @@ type checkCtx struct {
 	seed                      int
 	goBin                     string
 	raceRun                   bool
+	outBase                   string
 }
 
 func envOr(k, d string) string {
@@ -142,7 +143,8 @@ func cmdCheck(args []string) int {
 	}
 	c.seed, _ = strconv.Atoi(envOr("VERIF_SEED", "0"))
 	c.hdir = filepath.Join(c.verif, "harness")
-	c.outDir = filepath.Join(c.verif, "out", c.prop)
+	c.outBase = envOr("VERIF_OUT", c.verif) // scratch evaluations (seeded changes) write elsewhere
+	c.outDir = filepath.Join(c.outBase, "out", c.prop)
 	os.MkdirAll(c.outDir, 0o755)
 	t0 := time.Now()
 
@@ -526,9 +528,9 @@ func cmdCheck(args []string) int {
 			"generated_from_source":         map[string]interface{}{"counts": gen.counts, "uncovered": gen.uncovered},
 		},
 	}
-	os.MkdirAll(filepath.Join(c.verif, "evidence"), 0o755)
+	os.MkdirAll(filepath.Join(c.outBase, "evidence"), 0o755)
 	ed, _ := json.MarshalIndent(ev, "", " ")
-	os.WriteFile(filepath.Join(c.verif, "evidence", c.prop+".json"), ed, 0o644)
+	os.WriteFile(filepath.Join(c.outBase, "evidence", c.prop+".json"), ed, 0o644)
 
 	fmt.Printf("%s %s: %d harness runs, %d paths (%d vacuous), %d solver-decided + %d syntactic obligations, %d solver queries, %d native validations, wall %.1fs\n",
 		c.prop, c.tier, len(runs), totalPaths, vac, solverVCs, syntVCs, queries, validated, time.Since(t0).Seconds())
